@@ -70,6 +70,21 @@ func loadCaseRun(col *Collector, lc loadCase, tag string) {
 			cs.Fail, cs.Sig = fmt.Sprintf("list (default config resolution): exit=%d timeout=%v: %s", r.exit, r.timedOut, clipStr(firstPanicLine(r.stderr), 200)), "c15-default-resolution-crash"
 		}
 	}
+	if lc.format == "yaml" && cs.Fail == "" {
+		// the same document as the user's GLOBAL configuration ($HOME/.taskctl/config.yaml) next to a sound project file
+		gdir := filepath.Join(dir, "global")
+		ghome := filepath.Join(gdir, ".verif-home", ".taskctl")
+		os.MkdirAll(ghome, 0755)
+		os.WriteFile(filepath.Join(ghome, "config.yaml"), []byte(lc.text), 0644)
+		os.WriteFile(filepath.Join(gdir, "tasks.yaml"), []byte("tasks:\n  sound:\n    command: [\"true\"]\n"), 0644)
+		if lc.envFile != "" {
+			os.WriteFile(filepath.Join(ghome, "envf"), []byte(lc.envFile), 0644)
+		}
+		r := runTaskctl(gdir, nil, 8*time.Second, "list")
+		if r.timedOut || r.panicked || (r.exit != 0 && r.exit != 1) {
+			cs.Fail, cs.Sig = fmt.Sprintf("list (document as the global configuration): exit=%d timeout=%v: %s", r.exit, r.timedOut, clipStr(firstPanicLine(r.stderr), 200)), "c15-global-config-crash"
+		}
+	}
 	if cs.Fail != "" {
 		col.Add(cs)
 		return
